@@ -282,7 +282,7 @@ class Program:
         """map a call-site path to a function of the dump (or None)"""
         if callee in self.raw:
             return callee
-        c = re.sub(r'::<[^:]*?>(?=::|$)', '', callee)   # drop turbofish segments
+        c = re.sub(r'::<(?!impl )[^:]*?>(?=::|$)', '', callee)   # drop turbofish segments (not `<impl T>` path segments)
         if c in self.raw:
             return c
         m = re.match(r'^<(.*) as (.*)>::(\w+)$', callee)
@@ -293,7 +293,8 @@ class Program:
         parts = c.split('::')
         if len(parts) >= 2:
             method = parts[-1]
-            tyname = re.sub(r'<.*', '', parts[-2])
+            mi = re.match(r'^<impl (?:.* for )?([\w:]+).*>$', parts[-2])
+            tyname = mi.group(1).split('::')[-1] if mi else re.sub(r'<.*', '', parts[-2])
             return self._pick(method, tyname)
         return self._pick(c, None)
 
@@ -330,6 +331,13 @@ class Program:
                 mm = re.match(r'^\s*(?:unsafe )?impl(?:<[^>]*>)?\s+(?:(.+?)\s+for\s+)?([\w:]+)', ln)
                 if mm:
                     t = mm.group(2).split('::')[-1]
+                elif '#[derive' in ln:
+                    # derived impl: the span is the derive attribute, the type follows
+                    for nxt in lines[key[1]:key[1] + 12]:
+                        md = re.match(r'^\s*(?:pub(?:\([^)]*\))? )?(?:enum|struct) (\w+)', nxt)
+                        if md:
+                            t = md.group(1)
+                            break
             except Exception:
                 t = None
             self.impl_type[key] = t
@@ -372,6 +380,7 @@ class Executor:
             self.trace = []
             self.pc = []
             self.pending = []
+            self.cur_model = None
             self.solver.push()
             self.steps = 0
             try:
@@ -394,6 +403,10 @@ class Executor:
             if self.stats['paths'] >= max_paths:
                 complete = False
                 break
+            if getattr(self, 'stop_requested', False):
+                # enough counterexamples collected: the verdict is already 'fail'
+                complete = False
+                break
         return complete and not work
 
     def check(self, cond):
@@ -409,6 +422,20 @@ class Executor:
         if r == z3.unknown:
             self.stats['unknown'] += 1
         return str(r)
+
+    def check_model(self, cond):
+        import time
+        t0 = time.time()
+        self.solver.push()
+        self.solver.add(cond)
+        r = self.solver.check()
+        m = self.solver.model() if r == z3.sat else None
+        self.solver.pop()
+        self.stats['solver_checks'] += 1
+        self.stats['solver_s'] += time.time() - t0
+        if r == z3.unknown:
+            self.stats['unknown'] += 1
+        return str(r), m
 
     def model_for(self, extra=None):
         self.solver.push()
@@ -437,10 +464,29 @@ class Executor:
             c = cond if val else z3.Not(cond)
             self.pc.append(c)
             self.solver.add(c)
+            self.cur_model = None
             return val
         self.stats['decisions'] += 1
-        st = self.check(cond)
-        sf = self.check(z3.Not(cond))
+        # concolic shortcut: a model of the path condition already witnesses one side of the branch
+        mdl = getattr(self, 'cur_model', None)
+        m_true = m_false = None
+        if mdl is not None:
+            try:
+                mv = mdl.eval(cond, model_completion=True)
+                if z3.is_true(mv):
+                    m_true = mdl
+                elif z3.is_false(mv):
+                    m_false = mdl
+            except z3.Z3Exception:
+                pass
+        if m_true is not None:
+            st = 'sat'
+        else:
+            st, m_true = self.check_model(cond)
+        if m_false is not None:
+            sf = 'sat'
+        else:
+            sf, m_false = self.check_model(z3.Not(cond))
         if st == 'unknown' or sf == 'unknown':
             raise BoundExceeded('solver returned unknown on a branch condition')
         if st == 'sat' and sf == 'sat':
@@ -452,6 +498,7 @@ class Executor:
             val = False
         else:
             raise Infeasible()
+        self.cur_model = m_true if val else m_false
         self.trace.append(val)
         c = cond if val else z3.Not(cond)
         self.pc.append(c)
@@ -894,12 +941,18 @@ class Executor:
     def make_adt(self, head, names, vals, dest_ty=None):
         h = re.sub(r'::<.*?>(?=::|$| )', '', head).strip()
         h = re.sub(r'<.*>', '', h)
+        cm0 = self.models.const(h)
+        if cm0 is not None and not vals:
+            return cm0
         parts = h.split('::')
         tyname = parts[-1]
         variant = None
         if len(parts) == 1 and dest_ty:
             # bare variant name (`_0 = Greater;`): the enum is the destination's type
             dt = re.sub(r'<.*', '', dest_ty).split('::')[-1].strip()
+            cm = self.models.const(f'{dt}::{tyname}')
+            if cm is not None and not vals:
+                return cm
             from models import STD_ENUMS
             if (dt in STD_ENUMS and tyname in STD_ENUMS[dt]) or (dt in self.prog.enums and tyname in self.prog.enums[dt]):
                 return Agg(dt, tyname, vals)
